@@ -10,7 +10,7 @@ function runOne(src) {
   const sandbox = { console: { log: (...a) => logs.push(a.map(String).join(' ')) } };
   sandbox.globalThis = sandbox;
   try {
-    vm.runInNewContext(src, sandbox, { timeout: 5000 });
+    vm.runInNewContext(src, sandbox, { timeout: 60000 });
     let out = sandbox.__out;
     if (typeof out !== 'string') out = out === undefined ? '<no __out>' : JSON.stringify(out);
     return { out: out + (logs.length ? '\nLOG:' + logs.join('|') : ''), error: '' };
